@@ -34,6 +34,10 @@ pub struct CaseOpts {
     pub o3_may_classes: Vec<FailClass>,
     /// any loom failure outside o3_may_classes / expected classes is a violation (internal panics)
     pub internal_is_violation: bool,
+    /// loom failures of these classes are neither checked nor counted as violations
+    pub ignore_classes: Vec<FailClass>,
+    /// O4: depth-first order / no repetition of decision paths (hook H1)
+    pub o4: bool,
     pub walks0: usize,
     pub walk_cap: usize,
     /// attribute violations to known findings through deviations
@@ -48,6 +52,8 @@ impl Default for CaseOpts {
             o3_must_classes: vec![],
             o3_may_classes: vec![],
             internal_is_violation: true,
+            ignore_classes: vec![],
+            o4: false,
             walks0: 64,
             walk_cap: 512,
             attribute: true,
@@ -93,6 +99,9 @@ struct Collector {
     n_sched_branches: u64,
     n_spur_branches: u64,
     outcome_seq_hash: u64,
+    prev_path: Option<Vec<loom::verif::Branch>>,
+    path_seen: HashMap<u64, usize>,
+    o4_violation: Option<(usize, String, Vec<String>, Vec<String>)>,
 }
 
 pub fn results_from_history(p: &Program, h: &[HEv]) -> Vec<Vec<Option<u64>>> {
@@ -146,6 +155,28 @@ pub fn path_text(path: &[loom::verif::Branch]) -> Vec<String> {
         .collect()
 }
 
+/// hash of the complete decision sequence (kind + chosen alternative of every branch)
+pub fn full_path_hash(path: &[loom::verif::Branch]) -> u64 {
+    let mut bytes = Vec::new();
+    for b in path {
+        match b {
+            loom::verif::Branch::Schedule { active, .. } => {
+                bytes.push(b'S');
+                bytes.push(active.map(|x| x + 1).unwrap_or(0));
+            }
+            loom::verif::Branch::Load { pos, values, .. } => {
+                bytes.push(b'L');
+                bytes.push(values.get(*pos as usize).cloned().unwrap_or(255));
+            }
+            loom::verif::Branch::Spurious { spur, .. } => {
+                bytes.push(b'P');
+                bytes.push(*spur as u8);
+            }
+        }
+    }
+    crate::rng::hash_bytes(&bytes)
+}
+
 pub fn path_hash(path: &[loom::verif::Branch]) -> u64 {
     // decisions only: kind + chosen alternative
     let mut bytes = Vec::new();
@@ -185,10 +216,15 @@ pub fn run_case(p: &Program, cfg: &Config, opts: &CaseOpts, rng: &mut Rng) -> Ca
         n_sched_branches: 0,
         n_spur_branches: 0,
         outcome_seq_hash: 0,
+        prev_path: None,
+        path_seen: HashMap::new(),
+        o4_violation: None,
     }));
     let col2 = col.clone();
     let p2 = p.clone();
     let do_o2 = opts.o2;
+    let do_o4 = opts.o4;
+    let dump = std::env::var("VERIF_DUMP").is_ok();
     let may = MachineCfg::may();
     let may2 = may.clone();
     let run = run_loom(p, cfg, move |h, _tids, path| {
@@ -198,6 +234,9 @@ pub fn run_case(p: &Program, cfg: &Config, opts: &CaseOpts, rng: &mut Rng) -> Ca
         let it = c.iter;
         let res = results_from_history(&p2, h);
         let out = outcome_string(&p2, &res);
+        if dump {
+            println!("ITER {} [{}] hist: {}\n      path: {:?}", it, out, history_text(h), path_text(path));
+        }
         c.outcome_seq_hash = c.outcome_seq_hash.wrapping_mul(0x100000001b3) ^ crate::rng::hash_str(&out);
         c.outcomes.entry(out).or_insert(it);
         c.paths.insert(path_hash(path));
@@ -210,6 +249,21 @@ pub fn run_case(p: &Program, cfg: &Config, opts: &CaseOpts, rng: &mut Rng) -> Ca
                 loom::verif::Branch::Schedule { .. } => c.n_sched_branches += 1,
                 loom::verif::Branch::Spurious { .. } => c.n_spur_branches += 1,
             }
+        }
+        if do_o4 && c.o4_violation.is_none() {
+            let ph = full_path_hash(path);
+            if let Some(&first) = c.path_seen.get(&ph) {
+                c.o4_violation = Some((it, format!("iteration {} repeats the decision path of iteration {}", it, first), vec![], path_text(path)));
+            }
+            c.path_seen.insert(ph, it);
+            if let Some(prev) = c.prev_path.take() {
+                if let Err(e) = crate::oracle::o4_step(&prev, path) {
+                    if c.o4_violation.is_none() {
+                        c.o4_violation = Some((it, format!("iteration {} does not follow iteration {} in depth-first order: {}", it, it - 1, e), path_text(&prev), path_text(path)));
+                    }
+                }
+            }
+            c.prev_path = Some(path.to_vec());
         }
         if do_o2 {
             let hh = hist_hash(h);
@@ -273,6 +327,36 @@ pub fn run_case(p: &Program, cfg: &Config, opts: &CaseOpts, rng: &mut Rng) -> Ca
         });
     }
 
+    if let Some((it, msg, prev, cur)) = &c.o4_violation {
+        rep.violations.push(Violation {
+            kind: "path_order".into(),
+            detail: msg.clone(),
+            known: None,
+            evidence: json!({"iteration": it, "previous_path": prev, "path": cur}),
+        });
+    }
+    if opts.o4 && matches!(run.status, LoomStatus::Completed) {
+        // the last path must have no unexplored alternative left
+        if let Some(last) = &c.prev_path {
+            if let Some(i) = crate::oracle::o4_first_open(last) {
+                rep.violations.push(Violation {
+                    kind: "path_order".into(),
+                    detail: format!("the model returned after {} iterations although branch {} of the last path still had an unexplored alternative", run.iterations, i),
+                    known: None,
+                    evidence: json!({"path": path_text(last)}),
+                });
+            }
+        }
+        if c.path_seen.len() != run.iterations {
+            rep.violations.push(Violation {
+                kind: "path_order".into(),
+                detail: format!("{} iterations but {} distinct decision paths", run.iterations, c.path_seen.len()),
+                known: None,
+                evidence: json!({}),
+            });
+        }
+    }
+
     // ---- reference walks
     let need_walks = opts.o1.is_some() || !opts.o3_must_classes.is_empty();
     let mut ws: Option<WalkSet> = None;
@@ -296,10 +380,11 @@ pub fn run_case(p: &Program, cfg: &Config, opts: &CaseOpts, rng: &mut Rng) -> Ca
                 for (k, (term, sched)) in &w.failures {
                     if let Some(cl) = class_of_terminal(term) {
                         if opts.o3_must_classes.iter().any(|c| same_class(c, &cl)) {
+                            let known = None;
                             rep.violations.push(Violation {
                                 kind: "missed_report".into(),
                                 detail: format!("the reference reaches {} but loom completed all {} iterations without reporting it", k, run.iterations),
-                                known: None,
+                                known,
                                 evidence: json!({"terminal": k, "ref_schedule": sched}),
                             });
                         }
@@ -332,6 +417,7 @@ pub fn run_case(p: &Program, cfg: &Config, opts: &CaseOpts, rng: &mut Rng) -> Ca
             }
         }
         LoomStatus::Capped => {}
+        LoomStatus::Failed { class, .. } if opts.ignore_classes.iter().any(|c| same_class(c, class)) => {}
         LoomStatus::Failed { class, msg } => {
             let h = run.failing_history.clone().unwrap_or_default();
             let expected_class = opts.o3_may_classes.iter().any(|c| same_class(c, class));
